@@ -46,6 +46,7 @@ OF OR IN CONNECTION WITH THE SOFTWARE OR THE USE OR OTHER DEALINGS IN THE SOFTWA
 #ifndef MINISATSMTSOLVER_H
 #define MINISATSMTSOLVER_H
 
+#include <atomic>
 #include <common/Timer.h>
 #include <common/TypeUtils.h>
 #include <minisat/core/SolverTypes.h>
@@ -82,7 +83,7 @@ protected:
     bool      verbosity;
     enum class ConsistencyAction { BacktrackToZero, ReturnUndef, SkipToSearchBegin, NoOp };
     int search_counter;
-    bool stopFlag{false};
+    std::atomic<bool> stopFlag{false}; // set from another thread while this solver searches
 public:
 
     // Constructor/Destructor:
